@@ -578,6 +578,17 @@ def check_catalogue(ctx: Ctx, case: dict) -> None:
           "swap": check_misc, "game": check_misc, "ann": check_ann,
           "model_objective": check_dc, "system_shape": check_dc,
           "multi_run": check_multi_run}[kind]
+    if kind in ("model_objective", "system_shape", "multi_run"):
+        # this property judges memory accesses only: an object that the
+        # package refuses to build (ValueError / TypeError from a
+        # constructor) is a clean rejection here, whatever its reason
+        try:
+            fn(ctx, case)
+        except (ValueError, TypeError) as e:
+            if is_index_error(e):
+                raise
+            ctx.rec.label(f"{kind}_refused_by_package")
+        return
     fn(ctx, case)
 
 
